@@ -1,10 +1,47 @@
 import NessaiVerif.Driver.Parse
+import NessaiVerif.Driver.LiveSet
+import NessaiVerif.Driver.Quad
+import NessaiVerif.Driver.Meta
+import NessaiVerif.Driver.Ordered
+import NessaiVerif.Driver.Reparam
+import NessaiVerif.Driver.Flow
+import NessaiVerif.Driver.Pool
+import NessaiVerif.Driver.CrashFS
+import NessaiVerif.Driver.Accounts
+import NessaiVerif.Driver.Interrupt
+import NessaiVerif.Driver.Loops
+import NessaiVerif.Driver.Resample
+import NessaiVerif.Driver.Threshold
+import NessaiVerif.Driver.LivePoint
+import NessaiVerif.Driver.Encode
+import NessaiVerif.Driver.Term
+import NessaiVerif.Driver.Tables
+import NessaiVerif.Driver.NpPrim
 import NessaiVerif.Driver.Batch
-/- Line-protocol dispatcher: first token selects the area. Mathlib-free. -/
+/- Line-protocol dispatcher: first token selects the area. Mathlib-free.
+   Every area has its own file Driver/<Area>.lean exporting `handle : List String → String`. -/
 namespace NessaiVerif.Driver
 
 def dispatch (line : String) : String :=
   match (line.trimAscii.toString.splitOn " ").filter (· ≠ "") with
+  | "ls" :: rest => LiveSet.handle rest
+  | "quad" :: rest => Quad.handle rest
+  | "mp" :: rest => Meta.handle rest
+  | "os" :: rest => Ordered.handle rest
+  | "rp" :: rest => Reparam.handle rest
+  | "flow" :: rest => Flow.handle rest
+  | "pool" :: rest => Pool.handle rest
+  | "fs" :: rest => CrashFS.handle rest
+  | "acc" :: rest => Accounts.handle rest
+  | "int" :: rest => Interrupt.handle rest
+  | "loop" :: rest => Loops.handle rest
+  | "rs" :: rest => Resample.handle rest
+  | "thr" :: rest => Threshold.handle rest
+  | "lp" :: rest => LivePoint.handle rest
+  | "enc" :: rest => Encode.handle rest
+  | "term" :: rest => Term.handle rest
+  | "tab" :: rest => Tables.handle rest
+  | "np" :: rest => NpPrim.handle rest
   | "bat" :: rest => Batch.handle rest
   | _ => "bad-op"
 
